@@ -11,7 +11,7 @@ SCENARIOS = [
     (r'TryLockSIX', ['Xrepublish_during_TryLockSIX']),
     (r'TryLockS', ['Xrepublish_during_TryLockS']),
     (r'PrepareRead', ['Xrepublish_during_PrepareRead']),
-    (r'UpgradeToX', ['S_then_upgrade']),
+    (r'UpgradeToX', ['S_then_upgrade', 'S_before_SIX_upgrade']),
     (r'DowngradeToSIX', ['downgrade_then_S']),
     (r'UnlockSIX|SIXGuard', ['SIX_then_X']),
     (r'UnlockS|SGuard|CompositeGuard', ['S_then_X']),
@@ -37,8 +37,10 @@ def attempt(cls, group, ob):
     if scs is None:
         return {'reproduced': False, 'detail': 'no TSan scenario for group %s' % group}
     tried = []
-    env = dict(os.environ, TSAN_OPTIONS='halt_on_error=1 exitcode=66')
+    env = dict(os.environ, TSAN_OPTIONS='halt_on_error=0 exitcode=66')
     import subprocess
+    if cls == 'mcs':
+        scs = [x for x in scs if x != 'S_then_upgrade']   # an MCS shared request queued behind SIX waits for it: use the S-first variant
     for sc in scs:
         try:
             p = subprocess.run([exe, cls, sc], capture_output=True, text=True, timeout=120, env=env)
@@ -47,7 +49,9 @@ def attempt(cls, group, ob):
             rc, out = 124, 'timeout'
         tried.append('%s:%s rc=%d' % (cls, sc, rc))
         if rc == 66 and "global 'payload'" in out:
-            lines = [l for l in out.split('\n') if l.strip()][:14]
+            blocks = out.split('==================')
+            blk = [b for b in blocks if "global 'payload'" in b]
+            lines = [l for l in (blk[0] if blk else out).split('\n') if l.strip() and ('data race' in l or 'payload' in l or 'mcs_lock.cpp' in l or 'lock.cpp' in l or 'of size' in l)][:12]
             return {'reproduced': True, 'command': 'tsan_lock %s %s' % (cls, sc),
                     'input': {'class': cls, 'scenario': sc},
                     'observed': lines,
